@@ -14,7 +14,7 @@ CHECKS = {
         'text': 'Condition-variable discipline on both queue classes, on every path of every instantiation: predicate-form waits '
                 'under queueListMutex; the wait predicate formula is equivalent to what the property states (truth table over its atoms); '
                 'every write that can enable the predicate is made under the waiters\' mutex and followed by notify; '
-                'DisableQueueNotify ctor/dtor balanced and sole writers. A violation of any clause yields a schedule with a lost wake-up.',
+                'DisableQueueNotify ctor/dtor balanced and sole writers; every queue constructor starts queueNotifyCounter at a constant zero. A violation of any clause yields a schedule with a lost wake-up.',
         'note': COMMON_NOTE + 'Not decided: liveness under fair scheduling, notify_one vs many waiters, timing of waitFor.',
         'technique': 'lockset + dominance over clang CFG, predicate formula extraction with truth-table implication, call-graph notify-after rule',
     },
@@ -32,7 +32,7 @@ CHECKS['C06'] = {
 CHECKS['C11'] = {
     'text': 'emptyQueue() formula and evaluation order (list before counter), CounterGuard entered before every take that is followed by '
             'user code and held over dispatch and put-back, CounterGuard balanced and sole writer of queueEmptyCounter, '
-            'time-out implication (!pred && enabled => empty) by truth table over the extracted predicate.',
+            'time-out implication (!pred && enabled => empty) by truth table over the extracted predicate; both guard counters start at a constant zero in every queue constructor.',
     'note': COMMON_NOTE + 'Not decided: the weak-memory argument (seq_cst RMW + acquire load) that makes the ordering sufficient.',
     'technique': 'formula extraction + truth table, dominance/must-hold of scope guards over clang CFG, who-may-write rule',
 }
@@ -52,13 +52,13 @@ CHECKS['C04'] = {
             'keys/arguments and const-ref/by-value getEvent policies; (b) listener lists are invoked only by directDispatch, on the list returned by '
             'the lookup of its own event parameter, with its own arguments in order; dispatch passes getEvent(own arguments) and the own arguments; '
             'the lookup searches the given key under listenerMutex; append/prepend/insert/removeListener perform exactly the matching list operation; '
-            '(c) static_assert and compile-fail witnesses for SelectGetEvent/SelectMap/argument-passing modes under g++ and clang++.',
+            'the default getEvent policy moves from none of its arguments; (c) static_assert and compile-fail witnesses for SelectGetEvent/SelectMap/argument-passing modes under g++ and clang++.',
     'note': COMMON_NOTE + 'Not decided: equality/hash semantics of user key types, argument values.',
     'technique': 'use-after-move analysis incl. unsequenced operands (AST LCA + CFG reachability), def-use funnel rules, compile-time witnesses',
 }
 CHECKS['C20'] = {
     'text': 'The two clauses the statement names, over the whole library: no function instantiation reads and moves-from one object in unsequenced '
-            'operands (both operator() variants, all policy instantiations); no user-provided or implicit copy/move constructor leaves a scalar member '
+            'operands, and none uses an object after it was moved from (sequenced, in a loop, through a captured reference or a caller-owned lvalue) (both operator() variants, all policy instantiations); ordered and hashed maps identify the same AnyId keys; no user-provided or implicit copy/move constructor leaves a scalar member '
             'indeterminate (recursing into std::atomic etc., per -std level); plus the g++/clang++ compile matrix of the witness units and the '
             'SingleThreading::Atomic/Mutex interface conventions (prefix ops return the new value, exchange the old).',
     'note': COMMON_NOTE + 'Not decided: code generation, optimisation levels, other compilers, trace equality itself. Defaulted default constructors are not judged (their effect depends on the use site).',
@@ -98,7 +98,7 @@ CHECKS['C15'] = {
     'text': 'Typestate of ScopedRemover (both specialisations) on every path: reset() dominates every overwrite of the record or target outside '
             'constructors; the destructor resets on every path; reset walks the whole record calling the target\'s remove, then clears; each add function '
             'records the handle returned by the matching add call under the record mutex on every normal path and returns it; remove erases the record '
-            'first and detaches only what was recorded; move construction and swap transfer/exchange both fields.',
+            'first and detaches only what was recorded, and searches and erases the record inside one critical section; the target list\'s add operations return a handle to the node they linked (pointer-program evaluation on every list shape up to length 3); move construction and swap transfer/exchange both fields.',
     'note': COMMON_NOTE + 'Not decided: histories as such (follow from the per-method invariant recorded >= attached-through-me).',
     'technique': 'dominance/post-dominance rules over clang CFG, def-use of the returned handle, field-completeness from class facts',
 }
@@ -124,7 +124,7 @@ CHECKS['C13'] = {
     'text': 'Every splice overload of OrderedQueueList performs the base splice with its own arguments and then doSort on every path; only whitelisted '
             'non-inserting base members are applied to ordered lists (emplace_back only on locals); doSort is std::list::sort with the library lambda; '
             'the lambda\'s extracted formula is checked exhaustively (8 emptiness x 13 orderings of three slots) to be a strict weak order that equals compare '
-            'on full slots, sorts emptied slots first and evaluates get() only on full slots; SelectQueueList witness.',
+            'on full slots, sorts emptied slots first and evaluates get() only on full slots; the slot typestate interpretation of the queue instantiated with the ordered list (an element enters the list only when it holds its event); SelectQueueList witness.',
     'note': COMMON_NOTE + 'Trusted: stability and correctness of std::list::sort; the user comparator being a strict weak order.',
     'technique': 'post-dominance rules, callee whitelist over resolved calls, comparator formula extraction + exhaustive law check',
 }
@@ -139,7 +139,7 @@ CHECKS['C16'] = {
 CHECKS['C18'] = {
     'text': 'Extracted formulas of AnyId operator==, operator< (compareEqual/compareLessThan overload selected per storage inlined) evaluated over all 13 '
             'weak orderings of digests x 13 of stored values (or no value comparison) of three ids: equivalence, strict weak order, incomparable <=> equal, '
-            'equal => same digest, value/empty storage clauses; std::hash reads only the digest; hashed map selection witness. Exhaustive over orderings.',
+            'equal => same digest, value/empty storage clauses; std::hash reads only the digest; the converting constructor does not move from the value between digesting and storing it (by-value digester witness); hashed map selection witness. Exhaustive over orderings.',
     'note': COMMON_NOTE + 'Assumes the digester is a function and the stored type\'s ==/< are an equivalence / strict weak order consistent with each other.',
     'technique': 'boolean formula extraction with inlining, exhaustive enumeration of orderings (finite since values are touched only through comparisons)',
 }
@@ -179,9 +179,9 @@ CHECKS['C10'] = {
 }
 CHECKS['C17'] = {
     'text': 'Over a witness family of payload sizes 1..232 bytes x capacities 8/16/24/64: every placement-new fits the buffer (layout facts); the inline constructor '
-            'is instantiated exactly when sizeof(T) <= max(capacity, sizeof(LargeData)); the stored function table is that of exactly the constructed type; '
+            'is instantiated exactly when sizeof(T) <= max(capacity, sizeof(LargeData)); the stored function table is that of exactly the constructed type, and tables/deleters exist only for unqualified object types; '
             'isLargerData/isType/getAddress/accessors derive from those tables and from getAddress; function table entries destroy / move-construct exactly T; '
-            'lifetime shape of AnyData and LargeData.',
+            'lifetime shape of AnyData and LargeData; client programs constructing from every value category x constness x size build under g++ and clang++ (witness/s_anydata.cpp).',
     'note': COMMON_NOTE + 'Not decided: equality of read-back values, address stability, alignment of over-aligned payloads.',
     'technique': 'layout facts + template-argument identity over the resolved AST, formula extraction, dominance',
 }
